@@ -748,107 +748,6 @@ Proof.
   apply assoc_set_nonneg; auto. pose proof (assoc0_nonneg recipient _ Hrp1). lia.
 Qed.
 
-(* ---------- one transaction, histories ---------- *)
-
-Definition st_c09 (s : ss_state) : Prop := st_c12 s /\ st_ok s /\ rp_nonneg s.
-
-(* the contract's own address never signs a transaction *)
-Definition ss_op_wf09 (c : ss_conf) (o : ss_op) : Prop :=
-  ss_op_wf o /\
-  match o with
-  | OpNewAlloc _ sender _ _ _ _ _ _ _ _ _ _ _ => sender <> cf_sc c
-  | OpWPLock sender _ _ => sender <> cf_sc c
-  | OpRPLock sender _ _ => sender <> cf_sc c
-  | OpRPUnlock sender => sender <> cf_sc c
-  | _ => True
-  end.
-
-(* what the step theorem covers: everything except allocation updates and kill / shut-down
-   (checked by the executable oracle only) and free allocations that grant read tokens (refuted) *)
-Definition ss_c09_scope (c : ss_conf) (o : ss_op) : Prop :=
-  match o with
-  | OpUpdate _ _ _ _ _ _ _ _ _ => False
-  | OpKill _ _ => False
-  | OpShutdown _ _ => False
-  | OpFreeAlloc _ _ _ _ coin _ _ _ => ss_free_read_grant c coin = 0
-  | _ => True
-  end.
-
-Theorem ss_apply_c09 : forall c s now round o s',
-  cf_owner c <> cf_sc c -> st_c09 s -> ss_op_wf09 c o -> ss_c09_scope c o ->
-  ss_apply c s now round o = Some s' -> ss_backed c s s' /\ st_c09 s'.
-Proof.
-  intros c s now round o s' Hc [H12 [Hok Hrp]] [Hwf Hs] Hsc H.
-  assert (H12' : st_c12 s') by (eapply ss_apply_c12; eauto).
-  unfold st_c09.
-  destruct o; cbn [ss_apply ss_op_wf ss_c09_scope] in *.
-  - discriminate.
-  - split; [eapply ss_new_alloc_backed; eauto|]. split; auto.
-    split; [eapply ss_new_alloc_ok; eauto | eapply misc_rpools; [eapply ss_new_alloc_misc; eauto | auto]].
-  - split; [eapply ss_wp_lock_backed; eauto|]. split; auto.
-    split; [unfold st_ok; rewrite (ss_wp_lock_blobbers _ _ _ _ _ _ H); auto | eapply misc_rpools; [eapply ss_wp_lock_misc; eauto | auto]].
-  - split; [eapply ss_commit_backed; eauto|]. split; auto.
-    split; [eapply ss_commit_ok; eauto | eapply misc_rpools; [eapply ss_commit_misc; eauto | auto]].
-  - destruct sel as [[[al bl] ch]|]; [|inversion H; subst; split; [apply backed_refl | auto]].
-    split; [eapply ss_gen_chal_backed; eauto|]. split; auto.
-    split; [unfold st_ok; rewrite (ss_gen_chal_blobbers _ _ _ _ _ _ _ _ H); auto | eapply misc_rpools; [eapply ss_gen_chal_misc; eauto | auto]].
-  - destruct (ss_chal_resp_backed _ _ _ _ _ _ _ _ _ _ Hok H) as [Hb Hok']. split; auto. split; auto. split; auto.
-    eapply misc_rpools; [eapply ss_chal_resp_misc; eauto | auto].
-  - contradiction.
-  - destruct (ss_finalize_backed _ _ _ _ _ _ _ H12 Hok H) as [Hb Hok']. split; auto. split; auto. split; auto.
-    eapply misc_rpools; [eapply ss_finalize_misc; eauto | auto].
-  - destruct (ss_cancel_backed _ _ _ _ _ _ _ H12 Hok H) as [Hb Hok']. split; auto. split; auto. split; auto.
-    eapply misc_rpools; [eapply ss_cancel_misc; eauto | auto].
-  - split; [eapply ss_rp_lock_backed; eauto|]. split; auto.
-    split; [unfold st_ok; rewrite (ss_rp_lock_blobbers _ _ _ _ _ _ H); auto | eapply ss_rp_lock_rp; eauto].
-  - split; [eapply ss_rp_unlock_backed; eauto; apply assoc0_nonneg; exact Hrp|]. split; auto.
-    split; [unfold st_ok; rewrite (ss_rp_unlock_blobbers _ _ _ _ H); auto | eapply ss_rp_unlock_rp; eauto].
-  - split; [eapply ss_read_backed; eauto|]. split; auto.
-    split; [eapply ss_read_ok; eauto | eapply ss_read_rp; eauto].
-  - contradiction.
-  - contradiction.
-  - split; [eapply ss_upd_blobber_backed; eauto|]. split; auto.
-    split; [eapply ss_upd_blobber_ok; eauto | eapply misc_rpools; [eapply ss_upd_blobber_misc; eauto | auto]].
-  - split; [eapply ss_add_assigner_backed; eauto|]. split; auto.
-    split; [unfold st_ok; rewrite (ss_add_assigner_blobbers _ _ _ _ _ _ _ H); auto|].
-    unfold rp_nonneg. rewrite (ss_add_assigner_rpools _ _ _ _ _ _ _ H). exact Hrp.
-  - destruct (ss_free_alloc_ledger _ _ _ _ _ _ _ _ _ _ _ _ Hc Hok Hrp H) as [Hl [_ [Hok' Hrp']]].
-    rewrite Hsc in Hl. split; [unfold ss_backed; lia | auto].
-Qed.
-
-Definition ss_c09_ok (c : ss_conf) (t : Z * Z * ss_op) : Prop := ss_op_wf09 c (snd t) /\ ss_c09_scope c (snd t).
-
-Theorem ss_run_c09 : forall c ts s, cf_owner c <> cf_sc c -> st_c09 s -> Forall (ss_c09_ok c) ts ->
-  ss_backed c s (fst (ss_run c s ts)) /\ st_c09 (fst (ss_run c s ts)).
-Proof.
-  induction ts as [|[[now round] o] tl IH]; cbn [ss_run]; intros s Hc Hs Hwf; [split; [apply backed_refl | exact Hs]|].
-  inversion Hwf as [|? ? [Hw Hsc] Htl]; subst. cbn [snd] in *.
-  unfold ss_step. destruct (ss_apply c s now round o) as [s1|] eqn:E.
-  - destruct (ss_apply_c09 _ _ _ _ _ _ Hc Hs Hw Hsc E) as [Hb Hs1].
-    specialize (IH s1 Hc Hs1 Htl). destruct (ss_run c s1 tl) as [s2 oks]. cbn [fst] in *.
-    destruct IH as [Hb2 Hs2]. split; [unfold ss_backed in *; lia | exact Hs2].
-  - specialize (IH s Hc Hs Htl). destruct (ss_run c s tl) as [s2 oks]. exact IH.
-Qed.
-
-Corollary ss_run_solvent : forall c ts s, cf_owner c <> cf_sc c -> st_c09 s -> Forall (ss_c09_ok c) ts ->
-  ss_liab s <= ss_wallet c s -> ss_liab (fst (ss_run c s ts)) <= ss_wallet c (fst (ss_run c s ts)).
-Proof. intros c ts s Hc Hs Hwf H0. destruct (ss_run_c09 c ts s Hc Hs Hwf) as [Hb _]. unfold ss_backed in Hb. lia. Qed.
-
-(* executable forms for concrete states *)
-Definition st_okb (s : ss_state) : bool := forallb (fun b => forallb (fun p => (0 <=? p) && (p <? B)) (bl_pools b)) (st_blobbers s).
-Definition rp_nonnegb (s : ss_state) : bool := forallb (fun kv => 0 <=? snd kv) (st_rpools s).
-Definition st_c09b (s : ss_state) : bool := st_c12b s && st_okb s && rp_nonnegb s.
-
-Lemma st_c09b_true : forall s, st_c09b s = true -> st_c09 s.
-Proof.
-  unfold st_c09b, st_c09; intros s H. apply andb_true_iff in H. destruct H as [H H3]. apply andb_true_iff in H. destruct H as [H1 H2].
-  split; [apply st_c12b_spec; exact H1|]. split.
-  - unfold st_ok, bl_ok, st_okb in *. rewrite forallb_forall in H2. apply Forall_forall. intros b Hb. specialize (H2 b Hb).
-    rewrite forallb_forall in H2. apply Forall_forall. intros p Hp. specialize (H2 p Hp). apply andb_true_iff in H2. destruct H2 as [Ha Hb']. apply Z.leb_le in Ha. apply Z.ltb_lt in Hb'. lia.
-  - unfold rp_nonneg, rp_nonnegb in *. rewrite forallb_forall in H3. apply Forall_forall. intros kv Hk. apply Z.leb_le. auto.
-Qed.
-
-
 (* ---------- update_allocation: extend, add / replace / remove a blobber ---------- *)
 
 Lemma ss_extend_terms_owed : forall c rs diff bas bls bas' bls',
@@ -972,11 +871,11 @@ Proof.
     - assert (Hne : add <> r).
       { intros ->. unfold ss_replace in E1. bind_as E1 d Ed. destruct (ss_find_ba r (al_bas a)); discriminate. }
       destruct (ss_replace_ledger _ _ _ _ _ _ _ _ _ _ E1 Ha Hok) as [? [? [? [? Hfr]]]]. split; [assumption|]. split; [assumption|]. split; [assumption|]. split; [assumption|]. rewrite Hfr; auto.
-    - inversion E1; subst. unfold ss_same_rest. repeat split; auto. lia. }
+    - inversion E1; subst. split; [exact Hok|]. split; [unfold al_owed; cbn; lia|]. split; [unfold ss_same_rest; auto|]. split; [reflexivity | exact Eab]. }
   destruct H1 as [Hok1 [Hl1 [Hr1 [Hi1 Hf1]]]].
   unfold st_ok, L_blobbers, ss_same_rest in *. cbn [st_blobbers st_validators st_rpools st_bals st_allocs st_with_blobbers].
   split; [apply set_ok; auto|]. split; [|auto].
-  rewrite (sum_set_blobber _ _ ab); [|rewrite Hi2, Hida; exact Hf1]. unfold bl_owed in *. cbn in *. lia.
+  rewrite (sum_set_blobber _ _ ab); [|rewrite Hi2, Hida; exact Hf1]. assert (Hx : bl_owed ab2 = bl_owed ab) by (rewrite Ho2; reflexivity). lia.
 Qed.
 
 Lemma ss_update_f_backed : forall c s now round sender alloc value size ext tpe add rem own s' f,
@@ -995,23 +894,23 @@ Proof.
     - bind_as E1 sx Ex. bind_as E1 w Ew. guard_inv E1. inversion E1; subst.
       apply ss_lock_from_ledger in Ex; auto. destruct Ex as [Hw [Hal [Hbl [Hvl Hrp]]]].
       apply ss_add_coin_some in Ew. destruct Ew as [-> Hlt].
-      repeat split; auto.
-      + destruct Ha as [H1 [H2 [H3 H4]]]. unfold al_c12, c12_money. cbn in *. repeat split; auto; lia.
-      + unfold al_owed. cbn. lia.
-    - inversion E1; subst. repeat split; auto. lia. }
+      split; [exact Hbl|]. split; [exact Hvl|]. split; [exact Hrp|]. split; [exact Hal|]. split; [reflexivity|]. split.
+      + destruct Ha as [H1 [H2 [H3 H4]]]. unfold al_c12, c12_money. cbn in *. repeat split; auto; try lia.
+      + rewrite Hw. unfold al_owed. cbn [al_wpool al_cp al_with_pools]. lia.
+    - inversion E1; subst. split; [reflexivity|]. split; [reflexivity|]. split; [reflexivity|]. split; [reflexivity|]. split; [reflexivity|]. split; [exact Ha | lia]. }
   destruct H1 as [Hb1 [Hv1 [Hr1 [Hal1 [Hi1 [Ha1 Hw1]]]]]].
   assert (Hok1 : st_ok s1) by (unfold st_ok; rewrite Hb1; exact Hok).
   assert (H2 : st_ok s2 /\ al_owed a2 + L_blobbers s2 <= al_owed a1 + L_blobbers s1 /\ ss_same_rest s1 s2 /\ al_id a2 = al_id a1).
   { destruct (negb (sender =? al_owner a1)).
-    - destruct (ss_extend_ledger _ _ _ _ _ _ _ _ E2 Hok1) as [? [? [? [? ?]]]]. repeat split; auto; lia.
+    - destruct (ss_extend_ledger _ _ _ _ _ _ _ _ E2 Hok1) as [Hx1 [Hx2 [Hx3 [Hx4 Hx5]]]]. split; [exact Hx1|]. split; [lia|]. split; assumption.
     - bind_as E2 [[sa aa] f1] Ec. bind_as E2 [[sb ab] f2] Ee.
       assert (Hc : st_ok sa /\ al_owed aa + L_blobbers sa <= al_owed a1 + L_blobbers s1 /\ ss_same_rest s1 sa /\ al_id aa = al_id a1).
-      { destruct add as [x|]; [eapply ss_change_blobbers_ledger; eauto|]. inversion Ec; subst. unfold ss_same_rest. repeat split; auto; lia. }
+      { destruct add as [x|]; [eapply ss_change_blobbers_ledger; eauto|]. inversion Ec; subst. unfold ss_same_rest. repeat split; auto; try lia. }
       destruct Hc as [Hoka [Hla [Hra Hia]]].
       assert (He : st_ok sb /\ al_owed ab + L_blobbers sb <= al_owed aa + L_blobbers sa /\ ss_same_rest sa sb /\ al_id ab = al_id aa).
       { destruct (ext || (0 <? size)).
-        - destruct (ss_extend_ledger _ _ _ _ _ _ _ _ Ee Hoka) as [? [? [? [? ?]]]]. repeat split; auto; lia.
-        - inversion Ee; subst. unfold ss_same_rest. repeat split; auto; lia. }
+        - destruct (ss_extend_ledger _ _ _ _ _ _ _ _ Ee Hoka) as [Hx1 [Hx2 [Hx3 [Hx4 Hx5]]]]. split; [exact Hx1|]. split; [lia|]. split; assumption.
+        - inversion Ee; subst. unfold ss_same_rest. repeat split; auto; try lia. }
       destruct He as [Hokb [Hlb [Hrb Hib]]].
       assert (Hfin : st_ok s2 /\ L_blobbers s2 = L_blobbers sb /\ ss_same_rest sb s2 /\ al_owed a2 = al_owed ab /\ al_id a2 = al_id ab).
       { unfold ss_same_rest. crush E2; blob_base; repeat split; auto. }
@@ -1026,5 +925,108 @@ Proof.
   rewrite (sum_set_alloc _ _ a); [|rewrite Hi2, Hi1; eapply ss_find_alloc_self; eauto].
   rewrite Hb1 in Hl2. lia.
 Qed.
+
+(* ---------- one transaction, histories ---------- *)
+
+Definition st_c09 (s : ss_state) : Prop := st_c12 s /\ st_ok s /\ rp_nonneg s.
+
+(* the contract's own address never signs a transaction *)
+Definition ss_op_wf09 (c : ss_conf) (o : ss_op) : Prop :=
+  ss_op_wf o /\
+  match o with
+  | OpNewAlloc _ sender _ _ _ _ _ _ _ _ _ _ _ => sender <> cf_sc c
+  | OpWPLock sender _ _ => sender <> cf_sc c
+  | OpRPLock sender _ _ => sender <> cf_sc c
+  | OpRPUnlock sender => sender <> cf_sc c
+  | OpUpdate sender _ _ _ _ _ _ _ _ => sender <> cf_sc c
+  | _ => True
+  end.
+
+(* what this step theorem covers: everything except kill / shut-down (their float slash fraction is
+   handled with Flocq in Proof/StorageLedgerFull.v) and free allocations that grant read tokens (refuted) *)
+Definition ss_c09_scope (c : ss_conf) (o : ss_op) : Prop :=
+  match o with
+  | OpKill _ _ => False
+  | OpShutdown _ _ => False
+  | OpFreeAlloc _ _ _ _ coin _ _ _ => ss_free_read_grant c coin = 0
+  | _ => True
+  end.
+
+Theorem ss_apply_c09 : forall c s now round o s',
+  cf_owner c <> cf_sc c -> st_c09 s -> ss_op_wf09 c o -> ss_c09_scope c o ->
+  ss_apply c s now round o = Some s' -> ss_backed c s s' /\ st_c09 s'.
+Proof.
+  intros c s now round o s' Hc [H12 [Hok Hrp]] [Hwf Hs] Hsc H.
+  assert (H12' : st_c12 s') by (eapply ss_apply_c12; eauto).
+  unfold st_c09.
+  destruct o; cbn [ss_apply ss_op_wf ss_c09_scope] in *.
+  - discriminate.
+  - split; [eapply ss_new_alloc_backed; eauto|]. split; auto.
+    split; [eapply ss_new_alloc_ok; eauto | eapply misc_rpools; [eapply ss_new_alloc_misc; eauto | auto]].
+  - split; [eapply ss_wp_lock_backed; eauto|]. split; auto.
+    split; [unfold st_ok; rewrite (ss_wp_lock_blobbers _ _ _ _ _ _ H); auto | eapply misc_rpools; [eapply ss_wp_lock_misc; eauto | auto]].
+  - split; [eapply ss_commit_backed; eauto|]. split; auto.
+    split; [eapply ss_commit_ok; eauto | eapply misc_rpools; [eapply ss_commit_misc; eauto | auto]].
+  - destruct sel as [[[al bl] ch]|]; [|inversion H; subst; split; [apply backed_refl | auto]].
+    split; [eapply ss_gen_chal_backed; eauto|]. split; auto.
+    split; [unfold st_ok; rewrite (ss_gen_chal_blobbers _ _ _ _ _ _ _ _ H); auto | eapply misc_rpools; [eapply ss_gen_chal_misc; eauto | auto]].
+  - destruct (ss_chal_resp_backed _ _ _ _ _ _ _ _ _ _ Hok H) as [Hb Hok']. split; auto. split; auto. split; auto.
+    eapply misc_rpools; [eapply ss_chal_resp_misc; eauto | auto].
+  - unfold ss_update in H. destruct (ss_update_f c s now round sender alloc value size extend set_tpe add remove new_owner) as [[sx fx]|] eqn:E; [|discriminate].
+    inversion H; subst. destruct (ss_update_f_backed _ _ _ _ _ _ _ _ _ _ _ _ _ _ _ H12 Hok Hwf Hs E) as [Hb Hok']. split; auto. split; auto. split; auto.
+    eapply misc_rpools; [eapply ss_update_f_misc; eauto | auto].
+  - destruct (ss_finalize_backed _ _ _ _ _ _ _ H12 Hok H) as [Hb Hok']. split; auto. split; auto. split; auto.
+    eapply misc_rpools; [eapply ss_finalize_misc; eauto | auto].
+  - destruct (ss_cancel_backed _ _ _ _ _ _ _ H12 Hok H) as [Hb Hok']. split; auto. split; auto. split; auto.
+    eapply misc_rpools; [eapply ss_cancel_misc; eauto | auto].
+  - split; [eapply ss_rp_lock_backed; eauto|]. split; auto.
+    split; [unfold st_ok; rewrite (ss_rp_lock_blobbers _ _ _ _ _ _ H); auto | eapply ss_rp_lock_rp; eauto].
+  - split; [eapply ss_rp_unlock_backed; eauto; apply assoc0_nonneg; exact Hrp|]. split; auto.
+    split; [unfold st_ok; rewrite (ss_rp_unlock_blobbers _ _ _ _ H); auto | eapply ss_rp_unlock_rp; eauto].
+  - split; [eapply ss_read_backed; eauto|]. split; auto.
+    split; [eapply ss_read_ok; eauto | eapply ss_read_rp; eauto].
+  - contradiction.
+  - contradiction.
+  - split; [eapply ss_upd_blobber_backed; eauto|]. split; auto.
+    split; [eapply ss_upd_blobber_ok; eauto | eapply misc_rpools; [eapply ss_upd_blobber_misc; eauto | auto]].
+  - split; [eapply ss_add_assigner_backed; eauto|]. split; auto.
+    split; [unfold st_ok; rewrite (ss_add_assigner_blobbers _ _ _ _ _ _ _ H); auto|].
+    unfold rp_nonneg. rewrite (ss_add_assigner_rpools _ _ _ _ _ _ _ H). exact Hrp.
+  - destruct (ss_free_alloc_ledger _ _ _ _ _ _ _ _ _ _ _ _ Hc Hok Hrp H) as [Hl [_ [Hok' Hrp']]].
+    rewrite Hsc in Hl. split; [unfold ss_backed; lia | auto].
+Qed.
+
+Definition ss_c09_ok (c : ss_conf) (t : Z * Z * ss_op) : Prop := ss_op_wf09 c (snd t) /\ ss_c09_scope c (snd t).
+
+Theorem ss_run_c09 : forall c ts s, cf_owner c <> cf_sc c -> st_c09 s -> Forall (ss_c09_ok c) ts ->
+  ss_backed c s (fst (ss_run c s ts)) /\ st_c09 (fst (ss_run c s ts)).
+Proof.
+  induction ts as [|[[now round] o] tl IH]; cbn [ss_run]; intros s Hc Hs Hwf; [split; [apply backed_refl | exact Hs]|].
+  inversion Hwf as [|? ? [Hw Hsc] Htl]; subst. cbn [snd] in *.
+  unfold ss_step. destruct (ss_apply c s now round o) as [s1|] eqn:E.
+  - destruct (ss_apply_c09 _ _ _ _ _ _ Hc Hs Hw Hsc E) as [Hb Hs1].
+    specialize (IH s1 Hc Hs1 Htl). destruct (ss_run c s1 tl) as [s2 oks]. cbn [fst] in *.
+    destruct IH as [Hb2 Hs2]. split; [unfold ss_backed in *; lia | exact Hs2].
+  - specialize (IH s Hc Hs Htl). destruct (ss_run c s tl) as [s2 oks]. exact IH.
+Qed.
+
+Corollary ss_run_solvent : forall c ts s, cf_owner c <> cf_sc c -> st_c09 s -> Forall (ss_c09_ok c) ts ->
+  ss_liab s <= ss_wallet c s -> ss_liab (fst (ss_run c s ts)) <= ss_wallet c (fst (ss_run c s ts)).
+Proof. intros c ts s Hc Hs Hwf H0. destruct (ss_run_c09 c ts s Hc Hs Hwf) as [Hb _]. unfold ss_backed in Hb. lia. Qed.
+
+(* executable forms for concrete states *)
+Definition st_okb (s : ss_state) : bool := forallb (fun b => forallb (fun p => (0 <=? p) && (p <? B)) (bl_pools b)) (st_blobbers s).
+Definition rp_nonnegb (s : ss_state) : bool := forallb (fun kv => 0 <=? snd kv) (st_rpools s).
+Definition st_c09b (s : ss_state) : bool := st_c12b s && st_okb s && rp_nonnegb s.
+
+Lemma st_c09b_true : forall s, st_c09b s = true -> st_c09 s.
+Proof.
+  unfold st_c09b, st_c09; intros s H. apply andb_true_iff in H. destruct H as [H H3]. apply andb_true_iff in H. destruct H as [H1 H2].
+  split; [apply st_c12b_spec; exact H1|]. split.
+  - unfold st_ok, bl_ok, st_okb in *. rewrite forallb_forall in H2. apply Forall_forall. intros b Hb. specialize (H2 b Hb).
+    rewrite forallb_forall in H2. apply Forall_forall. intros p Hp. specialize (H2 p Hp). apply andb_true_iff in H2. destruct H2 as [Ha Hb']. apply Z.leb_le in Ha. apply Z.ltb_lt in Hb'. lia.
+  - unfold rp_nonneg, rp_nonnegb in *. rewrite forallb_forall in H3. apply Forall_forall. intros kv Hk. apply Z.leb_le. auto.
+Qed.
+
 
 End Bound.
